@@ -21,9 +21,21 @@ pub struct KeyImportCase {
     pub ports: Vec<u16>,
 }
 
+/// A byte string handed to `decode` (under all four key types) and, base64-encoded, to the parser.
+#[derive(Clone, Debug, PartialEq, Eq, Hash, Serialize, Deserialize)]
+pub struct WireCase {
+    #[serde(with = "crate::hexser")]
+    pub bytes: Vec<u8>,
+    /// how the generator made it (histogram / non-trivial rule only; never used by an oracle)
+    pub label: String,
+    /// the base record carried a custom key
+    pub has_custom: bool,
+}
+
 #[derive(Clone, Debug, PartialEq, Eq, Hash, Serialize, Deserialize)]
 pub enum Case {
     Hist(History),
+    Wire(WireCase),
     NodeId(NodeIdCase),
     KeyImport(KeyImportCase),
 }
